@@ -170,8 +170,13 @@ def run_c19(prop, tier):
     for i, c in enumerate(mcases):
         txn.append(dict(c, mode="mon-" + ("monitor", "monitor_cond", "monitor_cond_since")[i % 3]))
     ncases, w4 = tlc_cases(tier, ["EmitNotif(0)"], tag="mcw-notif")
+    sd_mod3 = seed() % 3 if tier == "quick" else -1
     for i, c in enumerate(ncases):
         txn.append(dict(c, mode="notif-update" if c["t"] == "TableUpdates" else ("notif-update2", "notif-update3")[i % 2]))
+    # the same trees as the contents of a monitor reply
+    for i, c in enumerate(ncases):
+        if sd_mod3 < 0 or i % 3 == sd_mod3:
+            txn.append(dict(c, mode="reply-monitor" if c["t"] == "TableUpdates" else ("reply-monitor_cond", "reply-monitor_cond_since")[i % 2]))
     for c in dcases + txn:
         c["text"] = render(c["tree"])[:2000]
     res = shard_run(vh, dcases) + shard_run(vh, txn, n=min(NCPU, 8))
@@ -192,7 +197,7 @@ def run_c19(prop, tier):
     cov = {"states": sum(r["states"] for r in res), "transitions": sum(r["transitions"] for r in res), "traces_validated_against_impl": len(res),
            "corrupted_trees_decoded": sum(1 for e in evs if e["ev"] == "dec"), "decoder_outcomes": out,
            "small_trees_decoded_by_every_decoder": sum(1 for e in evs if e["ev"] == "small"), "decoders": 22,
-           "ill_formed_transactions": len(tcases), "monitor_requests_followed_by_commits": len(mcases), "notifications_sent_to_a_client": len(ncases), "transaction_outcomes": tout, "process_crashes": sum(r["crashes"] for r in res),
+           "ill_formed_transactions": len(tcases), "monitor_requests_followed_by_commits": len(mcases), "notifications_sent_to_a_client": len(ncases), "monitor_replies_sent_to_a_client": sum(1 for c in txn if c["mode"].startswith("reply-")), "transaction_outcomes": tout, "process_crashes": sum(r["crashes"] for r in res),
            "samples": [{"t": c["t"], "mode": c["mode"], "input": c["text"][:300]} for c in (dcases[:: max(1, len(dcases) // 3)][:3] + txn[:: max(1, len(txn) // 3)][:3])],
            "known_findings_seen": verdict["known"],
            "rule": "TLC enumerates Corrupt(v) (every tree one local edit away: a node replaced by each junk atom/array, an element or member dropped, an element "
